@@ -92,9 +92,9 @@ const (
 )
 
 // Constructors.
-func Nil() Value                  { return Value{Kind: KNil} }
-func Bool(b bool) Value           { return Value{Kind: KBool, Bool: b} }
-func Int(v int64) Value           { return Value{Kind: KInt, Int: v} }
+func Nil() Value        { return Value{Kind: KNil} }
+func Bool(b bool) Value { return Value{Kind: KBool, Bool: b} }
+func Int(v int64) Value { return Value{Kind: KInt, Int: v} }
 func IntAs(v int64, lead byte) Value {
 	if lead >= Uint8 && lead <= Uint64 {
 		if v < 0 {
